@@ -14,15 +14,19 @@ def write_docs(d, files):
     os.makedirs(d, exist_ok=True)
     for name, text in files: open(os.path.join(d, name), "w", encoding="utf-8").write(text)
 
-def parse_dir(d, names, k=None):
-    """parse with a failure injected at the k-th operation; returns (outcome, trace, fired)"""
+def parse_dir(d, names, k=None, observe=None):
+    """parse with a failure injected at the k-th operation; returns (outcome, trace, fired).
+    observe: called at the moment the call has returned or raised - inside the handler, while the exception (and with it the frames of the failed
+    call) is still alive, which is when a caller's own except clause looks at the directory"""
     from opcua_tools.nodeset_parser import parse_xml_files
     tr = inject.Tracer(k)
     with inject.intercepted(tr):
         try:
             res = parse_xml_files([os.path.join(d, n) for n in names])
+            if observe: observe()
             out = ["ok", result_header(res)]
         except BaseException as e:
+            if observe: observe()
             out = ["err", type(e).__name__]
     return out, tr.trace, tr.fired
 
@@ -67,8 +71,10 @@ def run_case(ctx, work, s, k, edit_target=0):
     files = [(n, doc if isinstance(doc, str) else docs.render(doc, ctx.rng)) for n, doc in s["files"]]
     write_docs(d, files); names = [n for n, _ in files]
     before = snapshot(d)
-    out, trace, fired = parse_dir(d, names, k)
+    seen = []
+    out, trace, fired = parse_dir(d, names, k, observe=lambda: seen.append(snapshot(d)))
     after = snapshot(d)
+    if seen and seen[0] != before: after = seen[0]          # what the directory looked like when the call returned / raised
     # edit the first file to another namespace and parse again, without faults
     n0, doc0 = s["files"][edit_target]
     edited = docs.simple_doc(ctx.rng, "urn:edited", n_nodes=2)
@@ -111,6 +117,9 @@ def check(ctx):
             # failure-free trace first
             r0 = run_case(ctx, work, s, None)
             total = sum(1 for l, fin in r0["trace"] if not fin)
+            if s["bad"] is None and r0["out"][0] != "ok":
+                # the interception no longer carries the code: nothing below would mean anything
+                ctx.disagree("trace", dict(set=si, k=None), r0["out"], ["ok"])
             for k in [None] + list(range(total + 1)):
                 r = r0 if k is None else run_case(ctx, work, s, k)
                 # which file / which model index
